@@ -248,7 +248,26 @@ SurgeryClauses(e) ==
 \* ===========================================================================
 \* Part 2: transcriptions.  A tagged mesh is [kind, p, t, sub, bnd] (sub: <<[name, ids]>>, bnd: <<[name, ids]>>),
 \* ids 1-based; Conn(m) gives the derived tables (ConnImpl of MeshTopology).
-ConnOfMesh(m) == ConnImpl(m.kind, Len(m.p), m.t, CodeLF(m.kind), CodeLE(m.kind), CodeLFE(m.kind))
+\* facets / t2f / f2t only: the np.unique semantics of Mesh.build_entities / build_inverse (mesh.py:1065-1100),
+\* i.e. BuildEntitiesImpl / BuildInverseImpl of MeshTopology with the intermediate arrays evaluated once
+\* (TLCEval) - MC_C18 ASSUMEs that both agree on its universe
+ConnOfMesh(m) ==
+  LET lf   == CodeLF(m.kind)
+      nt   == Len(m.t)
+      ns   == Len(lf)
+      n    == ns * nt
+      col  == TLCEval([q \in 1..n |-> Column(m.t, lf, ((q - 1) \div nt) + 1, ((q - 1) % nt) + 1)])   \* hstack order
+      scol == TLCEval([q \in 1..n |-> SortTuple(col[q])])
+      uniq == TLCEval(LexSortedSeq({scol[q] : q \in 1..n}))
+      ixb  == TLCEval([q \in 1..n |-> CHOOSE u \in DOMAIN uniq : uniq[u] = scol[q]])
+      tix(q) == ((q - 1) % nt) + 1
+  IN [ facets |-> IF m.kind # "hex" THEN uniq ELSE [u \in DOMAIN uniq |-> col[FirstPos(ixb, u)]],
+       t2f    |-> [k \in 1..nt |-> [s \in 1..ns |-> ixb[(s - 1) * nt + k]]],
+       f2t    |-> [f \in DOMAIN uniq |-> LET a == tix(FirstPos(ixb, f)) b == tix(LastPos(ixb, f)) IN
+                                          IF a = b THEN <<a, 0>> ELSE <<a, b>>] ]
+ConnOfMeshSlow(m) ==
+  LET fe == BuildEntitiesImpl(m.t, CodeLF(m.kind), m.kind # "hex") IN
+  [facets |-> fe.ents, t2f |-> fe.mapping, f2t |-> BuildInverseImpl(Len(m.t), fe.mapping, Len(fe.ents))]
 
 \* np.unique of the entries of a sequence of cells: ascending sequence
 UniqueEntries(cells) == SortedSeq(UNION {VSet(cells[k]) : k \in DOMAIN cells})
